@@ -58,6 +58,10 @@ def _block(rng: Any, c: Any, depth: int) -> Any:
     if not gen.is_sds(c) and not gen.is_stokes(c) and rng.integers(2):
         rebuild, cs = gen.children(c)
         return rebuild([_block(rng, x, depth + 1) for x in cs])
+    if gen.is_sds(c) and rng.integers(4) == 0:
+        # a block whose inverse goes through the solver (SPD), next to closed-form blocks that need not be symmetric
+        LOG.count('C06.blocks', 'solver-inverted-block')
+        return gen.spd(rng, c)
     op = closed_form(rng, c, depth)
     if type(op).__name__ == 'MoveAxisOperator' and not dense.struct_eq(op.in_structure(), op.out_structure()):
         return gen.a_homothety(rng, c)
